@@ -841,6 +841,12 @@ type ProposalMessage struct {
 
 // ValidateBasic performs basic validation.
 func (m *ProposalMessage) ValidateBasic() error {
+	if err := m.Proposal.ValidateBasic(); err != nil {
+		return err
+	}
+	if m.Proposal.POLBlockID.PartsHeader.Total > types.MaxBlockPartsCount {
+		return fmt.Errorf("proposal block parts total is too big: %d, max: %d", m.Proposal.POLBlockID.PartsHeader.Total, types.MaxBlockPartsCount)
+	}
 	return nil
 }
 
@@ -860,6 +866,12 @@ func (m *ProposalPOLMessage) String() string {
 func (m *ProposalPOLMessage) ValidateBasic() error {
 	if m.ProposalPOL.Size() == 0 {
 		return ErrEmptyProposalPOL
+	}
+	if m.ProposalPOL.Size() > types.MaxVotesCount {
+		return fmt.Errorf("proposalPOL bit array is too big: %d, max: %d", m.ProposalPOL.Size(), types.MaxVotesCount)
+	}
+	if err := m.ProposalPOL.ValidateBasic(); err != nil {
+		return fmt.Errorf("wrong ProposalPOL: %v", err)
 	}
 	return nil
 }
@@ -972,6 +984,9 @@ func (m *VoteSetBitsMessage) ValidateBasic() error {
 	// NOTE: Votes.Size() can be zero if the node does not have any
 	if m.Votes.Size() > types.MaxVotesCount {
 		return fmt.Errorf("votes bit array is too big: %d, max: %d", m.Votes.Size(), types.MaxVotesCount)
+	}
+	if err := m.Votes.ValidateBasic(); err != nil {
+		return fmt.Errorf("wrong Votes: %v", err)
 	}
 	return nil
 }
@@ -1408,6 +1423,9 @@ func (m *NewValidBlockMessage) ValidateBasic() error {
 	}
 	if m.BlockParts.Size() > types.MaxBlockPartsCount {
 		return fmt.Errorf("BlockParts bit array is too big: %d, max: %d", m.BlockParts.Size(), types.MaxBlockPartsCount)
+	}
+	if err := m.BlockParts.ValidateBasic(); err != nil {
+		return fmt.Errorf("wrong BlockParts: %v", err)
 	}
 	return nil
 }
